@@ -72,6 +72,9 @@ pub enum Act {
     RekeyPull,
     Deliver,
     Wrong(Kind),
+    /// both ends start a new stream on their *used* State values (init_push / init_pull
+    /// called on a state that already carries a key, a counter and a chained nonce)
+    Reinit,
 }
 
 // counters (observational; do not influence exploration)
@@ -83,6 +86,7 @@ static N_WRAP: AtomicU64 = AtomicU64::new(0);
 static N_TAGREKEY: AtomicU64 = AtomicU64::new(0);
 static N_ACC_AFTER_REJ: AtomicU64 = AtomicU64::new(0);
 static N_LEGIT_OLD: AtomicU64 = AtomicU64::new(0);
+static N_REINIT: AtomicU64 = AtomicU64::new(0);
 
 fn counter_of(r: &Raw) -> u32 {
     u32::from_le_bytes([r.1[0], r.1[1], r.1[2], r.1[3]])
@@ -280,6 +284,44 @@ pub fn step(sys: &Sys, act: &Act) -> Sys {
                 }
             }
         }
+        Act::Reinit => {
+            N_REINIT.fetch_add(1, Ordering::Relaxed);
+            let d = sys.depth;
+            let key: [u8; 32] = std::array::from_fn(|i| (i as u8).wrapping_mul(13).wrapping_add(d.wrapping_mul(29)).wrapping_add(5));
+            let header: [u8; 24] = std::array::from_fn(|i| (i as u8).wrapping_mul(7).wrapping_add(d.wrapping_mul(31)).wrapping_add(1));
+            let so = sodium::ss_init_pull(&header, &key);
+            let (pre_push, pre_pull) = (sys.push, sys.pull);
+            let r = guarded(AssertUnwindSafe(|| {
+                let mut push = mk_state(&pre_push);
+                let mut pull = mk_state(&pre_pull);
+                let h2 = header;
+                dryoc::rng::verif::set_source(Some(Box::new(move |b: &mut [u8]| {
+                    for (i, x) in b.iter_mut().enumerate() {
+                        *x = h2[i % 24];
+                    }
+                })));
+                let mut hout = [0u8; 24];
+                ss::crypto_secretstream_xchacha20poly1305_init_push(&mut push, &mut hout, &key);
+                dryoc::rng::verif::set_source(None);
+                ss::crypto_secretstream_xchacha20poly1305_init_pull(&mut pull, &hout, &key);
+                (hout, push.verif_parts(), pull.verif_parts())
+            }));
+            match r {
+                Err(p) => {
+                    dryoc::rng::verif::set_source(None);
+                    n.bad = Some(("panic", format!("re-init panicked: {}", p)));
+                }
+                Ok((hout, a, b)) => {
+                    if hout != header || a != so {
+                        n.bad = Some(("state-differs", format!("init_push on a used state (counter {:#x}) differs from libsodium's init: dryoc=({},{}) sodium=({},{})", counter_of(&pre_push), hx(&a.0), hx(&a.1), hx(&so.0), hx(&so.1))));
+                    } else if b != so {
+                        n.bad = Some(("state-differs", format!("init_pull on a used state (counter {:#x}) differs from libsodium's init", counter_of(&pre_pull))));
+                    }
+                    n.push = so;
+                    n.pull = so;
+                }
+            }
+        }
         Act::Deliver | Act::Wrong(_) => {
             // build the delivered (c, ad)
             let head = sys.queue.first();
@@ -415,6 +457,7 @@ fn enabled(sys: &Sys, lens: &[u8], out: &mut Vec<Act>) {
     }
     out.push(Act::RekeyPush);
     out.push(Act::RekeyPull);
+    out.push(Act::Reinit);
     if !sys.queue.is_empty() {
         out.push(Act::Deliver);
     }
@@ -713,7 +756,7 @@ pub fn run() -> i32 {
     sodium::init();
     quiet_panics();
     let mut ctx = Ctx::new("C03", "model_checking");
-    ctx.rule = "states: distinct (push state, pull state, in-flight queue<=2, last delivered, depth, rejected-flag) values reached by exhaustive search over the action alphabet {Push(mlen in {0,17} (and {0,1,17,64} in the wide-alphabet run at a smaller depth) x ad in {none,3B} x tag in 0..=3), RekeyBoth, RekeyPush, RekeyPull, Deliver, Wrong(12 kinds)} from every initial state up to the depth bound; every transition executes the real dryoc classic + object API code and libsodium in lockstep; sweep: every (state class, mlen, adlen, tag byte) cell once; a case is non-trivial when both dryoc and libsodium were executed on it".into();
+    ctx.rule = "states: distinct (push state, pull state, in-flight queue<=2, last delivered, depth, rejected-flag) values reached by exhaustive search over the action alphabet {Push(mlen in {0,17} (and {0,1,17,64} in the wide-alphabet run at a smaller depth) x ad in {none,3B} x tag in 0..=3), RekeyBoth, RekeyPush, RekeyPull, Reinit (init_push / init_pull of a new key and header on the used State values, compared with libsodium's init), Deliver, Wrong(12 kinds)} from every initial state up to the depth bound; every transition executes the real dryoc classic + object API code and libsodium in lockstep; sweep: every (state class, mlen, adlen, tag byte) cell once; a case is non-trivial when both dryoc and libsodium were executed on it".into();
     ctx.assume("libsodium 1.0.18 (libsodium-sys 0.2.7) is the reference for bytes, verdicts and state");
     ctx.assume("histories longer than the depth bound and payload values outside the stated alphabets are not covered");
     ctx.assume("raw stream states are installed through hook H1 (counter presets replace 2^32 real pushes)");
@@ -784,11 +827,11 @@ pub fn run() -> i32 {
     ctx.note(
         "witnesses",
         json!({"pushes": N_PUSH.load(Ordering::Relaxed), "accepted_deliveries": N_ACCEPT.load(Ordering::Relaxed),
-               "rejected_deliveries": N_REJECT.load(Ordering::Relaxed), "counter_wrap_rekeys": N_WRAP.load(Ordering::Relaxed),
+               "rejected_deliveries": N_REJECT.load(Ordering::Relaxed), "counter_wrap_rekeys": N_WRAP.load(Ordering::Relaxed), "reinits_of_used_states": N_REINIT.load(Ordering::Relaxed),
                "rekey_tag_pushes": N_TAGREKEY.load(Ordering::Relaxed), "accept_after_reject": N_ACC_AFTER_REJ.load(Ordering::Relaxed)}),
     );
     if bfs_fail == 0 {
-        for (n, c) in [("counter_wrap_rekeys", &N_WRAP), ("rekey_tag_pushes", &N_TAGREKEY), ("accept_after_reject", &N_ACC_AFTER_REJ), ("rejected", &N_REJECT), ("accepted", &N_ACCEPT)] {
+        for (n, c) in [("counter_wrap_rekeys", &N_WRAP), ("reinits_of_used_states", &N_REINIT), ("rekey_tag_pushes", &N_TAGREKEY), ("accept_after_reject", &N_ACC_AFTER_REJ), ("rejected", &N_REJECT), ("accepted", &N_ACCEPT)] {
             if c.load(Ordering::Relaxed) == 0 {
                 println!("MACHINERY-ERROR property=C03 vacuity: witness {} never reached", n);
                 return 2;
